@@ -1,5 +1,6 @@
 // E2 harnesses on a single tree + sequential executor (C01, C02, C06, C07, C08, C12, C16, C17 ...)
 #include "h_common.hpp"
+#include "h_checks.hpp"
 
 // ---- oracles computed from the particles' leaf coordinates only (independent of the tree)
 static long leafIndexOf(const Idx& s, long p){
@@ -50,8 +51,8 @@ ENTRY(h_c01){
     long seen = 0; bool rhsok = true;
     tree.applyToAllLeaves([&](auto&& hdr, const long* pidx, auto&&, auto&& rhs){
         for(long i = 0; i < hdr.nbParticles; ++i){
-            rhsok = rhsok & (rhs[0][i] == total - gP.w[pidx[i]]);
-            irsym_observe(rhs[0][i]); irsym_observe(pidx[i]);
+            for(int r = 0; r < NRHS; ++r){ rhsok = rhsok & (rhs[r][i] == U(r + 1) * (total - gP.w[pidx[i]])); irsym_observe(rhs[r][i]); }
+            irsym_observe(pidx[i]);
             ++seen;
         }
     });
@@ -71,4 +72,410 @@ ENTRY(h_c01){
     });
     irsym_assert(mok, A_MULTIPOLE);
     irsym_assert(lok, A_LOCAL);
+}
+
+static void leafIndexes(const Idx& space, long leafIdx[NPART]){ for(long p = 0; p < NPART; ++p) leafIdx[p] = leafIndexOfP(space, p); }
+
+// C06: construction stores every particle once, in the right leaf, bit-exactly; execute never alters them
+ENTRY(h_c06){
+    forkConfig(a0, a1, a3);
+    const Cfg cfg = makeCfg();
+    choosePositions(cfg, /*symmetric=*/true);        // all per-particle symbols are independent, so particles are exchangeable
+    const Idx space(cfg);
+    Tree tree(cfg, gP.pos, a0, a1 != 0);
+    checkConstruction(tree, space, /*expectZero=*/true);
+    tree.applyToAllLeaves([&](auto&& hdr, const long* pidx, auto&&, auto&&){ irsym_observe(hdr.spaceIndex); for(long i = 0; i < hdr.nbParticles; ++i) irsym_observe(pidx[i]); });
+    if(a2){
+        gReg.scan(tree); gK = KFlags(); gK.geom = true;
+        Algo algo(cfg, a3 < 0 ? TbfDefaultLastLevel : a3);
+        algo.execute(tree);
+        checkConstruction(tree, space, /*expectZero=*/false);       // positions, data, indices, leaf headers unchanged by execute
+        long leafIdx[NPART]; leafIndexes(space, leafIdx);
+        checkStructure(tree, space, leafIdx, a0, a1 != 0);           // cell headers unchanged
+    }
+}
+
+// C07: the tree is the sorted, partitioned ancestor closure of the occupied leaves
+ENTRY(h_c07){
+    forkConfig(a0, a1, a3);
+    const Cfg cfg = makeCfg();
+    choosePositions(cfg, /*symmetric=*/true, /*symbolicPayload=*/false);
+    const Idx space(cfg);
+    Tree tree(cfg, gP.pos, a0, a1 != 0);
+    long leafIdx[NPART]; leafIndexes(space, leafIdx);
+    checkStructure(tree, space, leafIdx, a0, a1 != 0);
+    for(long level = 0; level < HEIGHT; ++level){ irsym_observe(tree.getNbCellGroupsAtLevel(level)); for(const auto& g : tree.getCellGroupsAtLevel(level)) irsym_observe(g.getEndingSpacialIndex()); }
+    if(a2){
+        tree.rebuild();
+        checkStructure(tree, space, leafIdx, a0, a1 != 0);
+    }
+}
+
+// C16 (tree level): lookup finds exactly what exists
+ENTRY(h_c16){
+    forkConfig(a0, a1, a3);
+    const Cfg cfg = makeCfg();
+    choosePositions(cfg, /*symmetric=*/true, /*symbolicPayload=*/false);
+    const Idx space(cfg);
+    Tree tree(cfg, gP.pos, a0, a1 != 0);
+    long leafIdx[NPART]; leafIndexes(space, leafIdx);
+    checkLookup(tree, space, leafIdx);
+}
+
+// C17: bulk export before and after execute (and after rebuild when a2)
+ENTRY(h_c17){
+    forkConfig(a0, a1, a3);
+    const Cfg cfg = makeCfg();
+    choosePositions(cfg, /*symmetric=*/true);
+    U total = 0; for(long p = 0; p < NPART; ++p) total += gP.w[p];
+    Tree tree(cfg, gP.pos, a0, a1 != 0);
+    U expect[NPART][NRHS + 1];
+    for(long p = 0; p < NPART; ++p) for(int r = 0; r < NRHS; ++r) expect[p][r] = 0;
+    checkExport(tree, expect, NRHS > 0);
+    gReg.scan(tree); gK = KFlags();
+    Algo algo(cfg);
+    algo.execute(tree);
+    for(long p = 0; p < NPART; ++p) for(int r = 0; r < NRHS; ++r) expect[p][r] = U(r + 1) * (total - gP.w[p]);
+    checkExport(tree, expect, NRHS > 0);
+    if(a2){
+        tree.rebuild();
+        checkExport(tree, expect, NRHS > 0);
+    }
+}
+
+// ------------------------------------------------------------------ results of a run, keyed by (level, index) / original particle index
+struct RunResult {
+    long nbCells; long level[MaxCells]; long idx[MaxCells]; U m[MaxCells]; U l[MaxCells];
+    U rhs[NPART][NRHS + 1];
+    template <class TreeT> void capture(TreeT& tree){
+        nbCells = 0;
+        tree.applyToAllCells([this](const long lv, auto&& hdr, auto&& mOpt, auto&& lOpt){
+            level[nbCells] = lv; idx[nbCells] = hdr.spaceIndex; m[nbCells] = mOpt->get()[0]; l[nbCells] = lOpt->get()[0]; ++nbCells;
+        });
+        tree.applyToAllLeaves([this](auto&& hdr, const long* pidx, auto&&, auto&& r){
+            for(long i = 0; i < hdr.nbParticles; ++i) for(int k = 0; k < NRHS; ++k) rhs[pidx[i]][k] = r[k][i];
+        });
+    }
+    long find(long lv, long ix) const { for(long i = 0; i < nbCells; ++i) if(level[i] == lv && idx[i] == ix) return i; return -1; }
+};
+static RunResult gRA, gRB;
+enum Aid3 { E_LOGS = 160, E_CELLSET, E_MULTIPOLE, E_LOCAL, E_RHS,
+            F_STAGED_M = 170, F_STAGED_L, F_STAGED_RHS, F_ONLY_OP, F_WRITE_M, F_WRITE_L, F_WRITE_RHS, F_UPPER, F_LEAFOPS, F_CHANGED,
+            R_RHS_KEPT = 180, R_ZERO_M, R_ZERO_L, R_RHS_TWICE,
+            B_CELL_ACC = 190, B_CELL_VAL, B_PART_ACC, B_PART_VAL, B_OP,
+            T_P2M = 200, T_M2M, T_M2L, T_L2L, T_L2P, T_P2P, T_P2PINNER, T_RESULTS, T_PARTIAL, T_REDUCE_FOLD, T_REDUCE_TREE };
+
+static void compareRuns(const RunResult& A, const RunResult& B, long aidM, long aidL, long aidR, long aidSet){
+    bool setOk = A.nbCells == B.nbCells, mok = true, lok = true, rok = true;
+    for(long i = 0; i < A.nbCells; ++i){
+        const long j = B.find(A.level[i], A.idx[i]);
+        setOk = setOk && j >= 0;
+        if(j < 0) continue;
+        mok = mok & (A.m[i] == B.m[j]); lok = lok & (A.l[i] == B.l[j]);
+    }
+    for(long p = 0; p < NPART; ++p) for(int k = 0; k < NRHS; ++k) rok = rok & (A.rhs[p][k] == B.rhs[p][k]);
+    if(aidSet) irsym_assert(setOk, aidSet);
+    irsym_assert(mok, aidM); irsym_assert(lok, aidL); irsym_assert(rok, aidR);
+}
+
+// C08: results and the multiset of elementary interactions do not depend on the grouping
+// reference: one group per level (block size N+1, default mode); test: block size / mode forked through a0 / a1
+ENTRY(h_c08){
+    forkConfig(a0, a1, a3);
+    const Cfg cfg = makeCfg();
+    choosePositions(cfg, /*symmetric=*/true);
+    const long upper = a3 < 0 ? TbfDefaultLastLevel : a3;
+    {
+        Tree ref(cfg, gP.pos, NPART + 1, false);
+        gReg.scan(ref); gK = KFlags(); gK.logRun = 0;
+        Algo algo(cfg, upper); algo.execute(ref); gRA.capture(ref);
+    }
+    {
+        Tree tst(cfg, gP.pos, a0, a1 != 0);
+        gReg.scan(tst); gK = KFlags(); gK.logRun = 1;
+        Algo algo(cfg, upper); algo.execute(tst); gRB.capture(tst);
+    }
+    irsym_assert(irsym_logs_equal(0, 1) != 0, E_LOGS);
+    compareRuns(gRA, gRB, E_MULTIPOLE, E_LOCAL, E_RHS, E_CELLSET);
+    for(long p = 0; p < NPART; ++p) irsym_observe(gRB.rhs[p][0]);
+    irsym_observe(irsym_log_count(1, OP_M2L)); irsym_observe(irsym_log_count(1, OP_P2P));
+}
+
+// C12: operator flags compose. a2 selects the sub-check: 0 staged partitions, 1 single flag alone (write sets), 2 upper working level
+static const int kFlagOf[6] = { TbfAlgorithmUtils::TbfP2M, TbfAlgorithmUtils::TbfM2M, TbfAlgorithmUtils::TbfM2L, TbfAlgorithmUtils::TbfL2L,
+                                TbfAlgorithmUtils::TbfL2P, TbfAlgorithmUtils::TbfP2P };
+ENTRY(h_c12){
+    long sub = a2;
+    forkConfig(a0, a1, a3);
+    const Cfg cfg = makeCfg();
+    choosePositions(cfg, /*symmetric=*/true);
+    if(sub == 0){
+        // every partition of P2M<M2M<M2L<L2L<L2P into consecutive groups (cut mask), P2P merged into a group or as its own call anywhere
+        const long cuts = irsym_choose(16);
+        long groups[6]; long ng = 0; long cur = 0;
+        for(int op = 0; op < 5; ++op){
+            cur |= kFlagOf[op];
+            if(op == 4 || ((cuts >> op) & 1)){ groups[ng++] = cur; cur = 0; }
+        }
+        const long where = irsym_choose(2 * ng + 1);       // < ng: merged into that call; otherwise a separate call before position where-ng
+        long seq[8]; long ns = 0;
+        for(long g = 0; g <= ng; ++g){
+            if(where >= ng && where - ng == g) seq[ns++] = kFlagOf[5];
+            if(g < ng) seq[ns++] = groups[g] | (where == g ? kFlagOf[5] : 0);
+        }
+        const long upper = a3 < 0 ? TbfDefaultLastLevel : a3;
+        { Tree full(cfg, gP.pos, a0, a1 != 0); gReg.scan(full); gK = KFlags(); Algo algo(cfg, upper); algo.execute(full); gRA.capture(full); }
+        { Tree st(cfg, gP.pos, a0, a1 != 0); gReg.scan(st); gK = KFlags(); Algo algo(cfg, upper);
+          long all = 0; for(long i = 0; i < ns; ++i){ algo.execute(st, int(seq[i])); all |= seq[i]; irsym_note(10 + i, seq[i]); }
+          irsym_assert(all == TbfAlgorithmUtils::TbfNearAndFarFields, F_CHANGED);
+          gRB.capture(st); }
+        compareRuns(gRA, gRB, F_STAGED_M, F_STAGED_L, F_STAGED_RHS, 0);
+        irsym_observe(gRB.rhs[0][0]);
+    }
+    else if(sub == 1){
+        // a single flag on a tree whose buffers are all non-trivial (after one full run): only that operator runs, only its outputs change
+        const long op = irsym_choose(6);
+        const long upper = a3 < 0 ? TbfDefaultLastLevel : a3;
+        Tree tree(cfg, gP.pos, a0, a1 != 0); gReg.scan(tree); gK = KFlags();
+        Algo algo(cfg, upper); algo.execute(tree); gRA.capture(tree);
+        gK.logRun = 2; algo.execute(tree, kFlagOf[op]); gRB.capture(tree);
+        bool only = true;
+        for(long o = OP_P2M; o <= OP_P2PINNER; ++o){
+            const bool mine = (o == OP_P2M + op) || (op == 5 && o == OP_P2PINNER);
+            if(!mine) only = only && irsym_log_count(2, o) == 0;
+        }
+        irsym_assert(only, F_ONLY_OP);
+        bool mSame = true, lSame = true, rSame = true;
+        for(long i = 0; i < gRA.nbCells; ++i){ mSame = mSame & (gRA.m[i] == gRB.m[i]); lSame = lSame & (gRA.l[i] == gRB.l[i]); }
+        for(long p = 0; p < NPART; ++p) for(int k = 0; k < NRHS; ++k) rSame = rSame & (gRA.rhs[p][k] == gRB.rhs[p][k]);
+        if(op != 0 && op != 1) irsym_assert(mSame, F_WRITE_M);        // only P2M / M2M may write multipoles
+        if(op != 2 && op != 3) irsym_assert(lSame, F_WRITE_L);        // only M2L / L2L may write locals
+        if(op != 4 && op != 5) irsym_assert(rSame, F_WRITE_RHS);      // only L2P / P2P may write results
+        irsym_observe(irsym_log_count(2, OP_P2M + op));
+    }
+    else{
+        // upper working level u in 0..H: nothing above it
+        const long u = irsym_choose(HEIGHT + 1);
+        Tree tree(cfg, gP.pos, a0, a1 != 0); gReg.scan(tree); gK = KFlags(); gK.logRun = 3; gK.limitLevel0 = u;
+        Algo algo(cfg, u); algo.execute(tree);
+        // the log records (op, level, ...): M2M/L2L with the parent level, M2L with the level of the cells
+        // levels are checked inside irsym_log consumers below through counts per level: re-run over registry is not needed, the kernel logged levels
+        bool leafOps = true;
+        const long nbLeaves = gReg.nbLeaves;
+        if(HEIGHT > u) leafOps = irsym_log_count(3, OP_P2M) == NPART && irsym_log_count(3, OP_L2P) == NPART;
+        else leafOps = irsym_log_count(3, OP_P2M) == 0 && irsym_log_count(3, OP_L2P) == 0;
+        (void)nbLeaves;
+        irsym_assert(leafOps, F_LEAFOPS);
+        irsym_assert(irsym_log_count(3, 1000 + u) == 0, F_UPPER);      // 1000+u: number of logged M2M/M2L/L2L entries with level < u (computed by the log backend)
+        // and the result is still exactly-once (the far field above u is empty for a non-periodic box when u <= 2; for u > 2 the lost far field is by definition)
+        irsym_observe(irsym_log_count(3, OP_M2L));
+    }
+}
+
+// C13: rebuild re-bins moved particles and preserves identity, data and results. a2 = number of move/rebuild/execute cycles (1 or 2)
+ENTRY(h_c13){
+    const long cycles = a2 < 1 ? 1 : a2;
+    forkConfig(a0, a1, a3);
+    const Cfg cfg = makeCfg();
+    if(a4 == 0) choosePositions(cfg, /*symmetric=*/true);
+    else{
+        // fixed, spread-out initial placement (particle p at the centre of the p-th diagonal leaf); every displacement is explored below
+        for(long p = 0; p < NPART; ++p){
+            for(int d = 0; d < DIM; ++d){ gP.k[p][d] = 2 * ((p * (a4 == 1 ? 1 : 0)) % Side) + 1; gP.pos[p][d] = cfg.getBoxCorner()[d] + Real(gP.k[p][d]) * (cfg.getLeafWidths()[d] / Real(2)); }
+            gP.w[p] = irsym_symbolic_u64();
+            for(int e = 0; e < NEXTRA; ++e) gP.pos[p][DIM + e] = Real(1000 * (p + 1) + e) + Real(0.25);
+        }
+    }
+    const Idx space(cfg);
+    U total = 0; for(long p = 0; p < NPART; ++p) total += gP.w[p];
+    Tree tree(cfg, gP.pos, a0, a1 != 0);
+    gReg.scan(tree); gK = KFlags();
+    Algo algo(cfg);
+    algo.execute(tree);
+    for(long c = 1; c <= cycles; ++c){
+        // edit the positions in place (any subset of particles moves anywhere on the half lattice)
+        for(long p = 0; p < NPART; ++p) for(int d = 0; d < DIM; ++d){
+            gP.k[p][d] = chooseK();
+            gP.pos[p][d] = cfg.getBoxCorner()[d] + Real(gP.k[p][d]) * (cfg.getLeafWidths()[d] / Real(2));
+        }
+        tree.applyToAllLeaves([&](auto&& hdr, const long* pidx, auto&& data, auto&&){
+            for(long i = 0; i < hdr.nbParticles; ++i) for(int d = 0; d < DIM; ++d) data[d][i] = static_cast<DataT>(gP.pos[pidx[i]][d]);
+        });
+        tree.rebuild();
+        // equivalent to a fresh tree of the edited particles
+        checkConstruction(tree, space, /*expectZero=*/false);
+        long leafIdx[NPART]; leafIndexes(space, leafIdx);
+        checkStructure(tree, space, leafIdx, a0, a1 != 0);
+        bool kept = true, mz = true, lz = true;
+        tree.applyToAllLeaves([&](auto&& hdr, const long* pidx, auto&&, auto&& rhs){
+            for(long i = 0; i < hdr.nbParticles; ++i) for(int r = 0; r < NRHS; ++r) kept = kept & (rhs[r][i] == U(c) * U(r + 1) * (total - gP.w[pidx[i]]));
+        });
+        tree.applyToAllCells([&](const long, auto&&, auto&& mOpt, auto&& lOpt){ mz = mz && mOpt->get()[0] == 0; lz = lz && lOpt->get()[0] == 0; });
+        irsym_assert(kept, R_RHS_KEPT); irsym_assert(mz, R_ZERO_M); irsym_assert(lz, R_ZERO_L);
+        gReg.scan(tree);
+        algo.execute(tree);
+        bool twice = true;
+        tree.applyToAllLeaves([&](auto&& hdr, const long* pidx, auto&&, auto&& rhs){
+            for(long i = 0; i < hdr.nbParticles; ++i){ for(int r = 0; r < NRHS; ++r) twice = twice & (rhs[r][i] == U(c + 1) * U(r + 1) * (total - gP.w[pidx[i]])); irsym_observe(rhs[0][i]); irsym_observe(pidx[i]); }
+        });
+        irsym_assert(twice, R_RHS_TWICE);
+    }
+}
+
+// C14 (tree level): byte copies of every group's buffers, viewed through the raw-memory constructors, are equivalent views
+template <class T> static unsigned char* copyBuf(const std::pair<T*, size_t>& ps){
+    unsigned char* b = new unsigned char[ps.second ? ps.second : 1];
+    if(ps.second) std::memcpy(b, ps.first, ps.second);
+    return b;
+}
+ENTRY(h_c14){
+    forkConfig(a0, a1, a3);
+    const Cfg cfg = makeCfg();
+    choosePositions(cfg, /*symmetric=*/true);
+    const Idx space(cfg);
+    Tree tree(cfg, gP.pos, a0, a1 != 0);
+    gReg.scan(tree); gK = KFlags();
+    Algo algo(cfg);
+    algo.execute(tree);
+    using CellGroup = typename Tree::CellGroupClass; using LeafGroup = typename Tree::LeafGroupClass;
+    bool cacc = true, cval = true, pacc = true, pval = true, opok = true;
+    for(long level = 0; level < HEIGHT; ++level){
+        for(auto& g : tree.getCellGroupsAtLevel(level)){
+            auto ps = g.getDataPtrsAndSizes();
+            unsigned char* b0 = copyBuf(ps[0]); unsigned char* b1 = copyBuf(ps[1]); unsigned char* b2 = copyBuf(ps[2]);
+            {
+                CellGroup v(b0, ps[0].second, b1, ps[1].second, b2, ps[2].second, true);
+                cacc = cacc && v.getNbCells() == g.getNbCells() && v.getStartingSpacialIndex() == g.getStartingSpacialIndex() && v.getEndingSpacialIndex() == g.getEndingSpacialIndex();
+                for(long i = 0; i < g.getNbCells() && cacc; ++i){
+                    cacc = cacc && v.getCellSpacialIndex(i) == g.getCellSpacialIndex(i);
+                    for(int d = 0; d < DIM; ++d) cacc = cacc && v.getCellBoxCoord(i)[d] == g.getCellBoxCoord(i)[d];
+                    cval = cval & (v.getCellMultipole(i)[0] == g.getCellMultipole(i)[0]) & (v.getCellLocal(i)[0] == g.getCellLocal(i)[0]);
+                    auto f = v.getElementFromSpacialIndex(g.getCellSpacialIndex(i));
+                    cacc = cacc && f && *f == i;
+                    // element accessors stay inside their buffers
+                    const unsigned char* pm = reinterpret_cast<const unsigned char*>(&v.getCellMultipole(i));
+                    cacc = cacc && pm >= b1 && pm + sizeof(MCell) <= b1 + ps[1].second;
+                }
+            }
+            delete[] b0; delete[] b1; delete[] b2;
+        }
+    }
+    TbfGroupKernelInterface<Idx> wrapper(space);
+    Kernel kernel(cfg);
+    for(auto& g : tree.getParticleGroups()){
+        auto ps = g.getDataPtrsAndSizes();
+        unsigned char* b0 = copyBuf(ps[0]); unsigned char* b1 = copyBuf(ps[1]);
+        {
+            LeafGroup v(b0, ps[0].second, b1, ps[1].second, true);
+            pacc = pacc && v.getNbLeaves() == g.getNbLeaves() && v.getNbParticles() == g.getNbParticles()
+                        && v.getStartingSpacialIndex() == g.getStartingSpacialIndex() && v.getEndingSpacialIndex() == g.getEndingSpacialIndex();
+            for(long l = 0; l < g.getNbLeaves() && pacc; ++l){
+                pacc = pacc && v.getLeafSpacialIndex(l) == g.getLeafSpacialIndex(l) && v.getNbParticlesInLeaf(l) == g.getNbParticlesInLeaf(l);
+                for(int d = 0; d < DIM; ++d) pacc = pacc && v.getLeafBoxCoord(l)[d] == g.getLeafBoxCoord(l)[d];
+                const auto vd = TbfUtils::make_const(v).getParticleData(l); const auto gd = TbfUtils::make_const(g).getParticleData(l);
+                const auto vr = TbfUtils::make_const(v).getParticleRhs(l); const auto gr = TbfUtils::make_const(g).getParticleRhs(l);
+                for(long i = 0; i < g.getNbParticlesInLeaf(l); ++i){
+                    pacc = pacc && v.getParticleIndexes(l)[i] == g.getParticleIndexes(l)[i];
+                    for(int k = 0; k < DIM + NEXTRA; ++k) pval = pval && std::memcmp(&vd[k][i], &gd[k][i], sizeof(DataT)) == 0;
+                    for(int r = 0; r < NRHS; ++r) pval = pval & (vr[r][i] == gr[r][i]);
+                }
+            }
+            // an operator on the copy computes what it computes on the original
+            gReg.scan(tree);
+            wrapper.P2PInner(kernel, v);
+            wrapper.P2PInner(kernel, g);
+            for(long l = 0; l < g.getNbLeaves(); ++l){
+                const auto vr = TbfUtils::make_const(v).getParticleRhs(l); const auto gr = TbfUtils::make_const(g).getParticleRhs(l);
+                for(long i = 0; i < g.getNbParticlesInLeaf(l); ++i) for(int r = 0; r < NRHS; ++r){ opok = opok & (vr[r][i] == gr[r][i]); irsym_observe(gr[r][i]); }
+            }
+        }
+        delete[] b0; delete[] b1;
+    }
+    irsym_assert(cacc, B_CELL_ACC); irsym_assert(cval, B_CELL_VAL); irsym_assert(pacc, B_PART_ACC); irsym_assert(pval, B_PART_VAL); irsym_assert(opok, B_OP);
+}
+
+// C18: interaction counters report the true number of elementary interactions (sequential executor)
+#include "kernels/counterkernels/tbfinteractioncounter.hpp"
+using CKernel = TbfInteractionCounter<Kernel>;
+using CAlgo = TbfAlgorithm<Real, CKernel, Idx>;
+ENTRY(h_c18){
+    forkConfig(a0, a1, a3);
+    const Cfg cfg = makeCfg();
+    choosePositions(cfg, /*symmetric=*/true);
+    const Idx space(cfg);
+    const long upper = a3 < 0 ? TbfDefaultLastLevel : a3;
+    { Tree ref(cfg, gP.pos, a0, a1 != 0); gReg.scan(ref); gK = KFlags(); Algo algo(cfg, upper); algo.execute(ref); gRA.capture(ref); }
+    Tree tree(cfg, gP.pos, a0, a1 != 0); gReg.scan(tree); gK = KFlags();
+    CAlgo algo(cfg, upper);
+    algo.execute(tree); gRB.capture(tree);
+    compareRuns(gRA, gRB, T_RESULTS, T_RESULTS, T_RESULTS, T_RESULTS);        // wrapping leaves the results unchanged
+    typename CKernel::ReduceType acc;
+    algo.applyToAllKernels([&](const auto& k){ acc = CKernel::ReduceType::Reduce(acc, k.getReduceData()); });
+    // oracle from the leaf index set only
+    long leafIdx[NPART]; leafIndexes(space, leafIdx);
+    const LevelSet leaves = levelSet(leafIdx, HEIGHT - 1);
+    long nIn[NPART]; for(long i = 0; i < leaves.n; ++i){ nIn[i] = 0; for(long p = 0; p < NPART; ++p) if(leafIdx[p] == leaves.idx[i]) ++nIn[i]; }
+    long eP2M = HEIGHT > upper ? leaves.n : 0, eM2M = 0, eM2L = 0, eP2P = 0, eInner = 0;
+    for(long l = upper + 1; l <= HEIGHT - 1; ++l) eM2M += levelSet(leafIdx, l).n;
+    for(long l = upper; l <= HEIGHT - 1; ++l){
+        const LevelSet ls = levelSet(leafIdx, l);
+        for(long t = 0; t < ls.n; ++t){
+            const auto il = space.getInteractionListForIndex(ls.idx[t], l);
+            for(const auto s : il) for(long j = 0; j < ls.n; ++j) if(ls.idx[j] == s) ++eM2L;
+        }
+    }
+    for(long a = 0; a < leaves.n; ++a){
+        eInner += nIn[a] * (nIn[a] - 1);
+        const auto ca = space.getBoxPosFromIndex(leaves.idx[a]);
+        for(long b = a + 1; b < leaves.n; ++b){
+            const auto cb = space.getBoxPosFromIndex(leaves.idx[b]);
+            long md = 0; for(int d = 0; d < DIM; ++d){ long x = ca[d] - cb[d]; if(x < 0) x = -x; if(x > md) md = x; }
+            if(md == 1) eP2P += nIn[a] * nIn[b];
+        }
+    }
+    irsym_assert(acc.P2M == eP2M, T_P2M); irsym_assert(acc.L2P == eP2M, T_L2P);
+    irsym_assert(acc.M2M == eM2M, T_M2M); irsym_assert(acc.L2L == eM2M, T_L2L);
+    irsym_assert(acc.M2L == eM2L, T_M2L); irsym_assert(acc.P2P == eP2P, T_P2P); irsym_assert(acc.P2PInner == eInner, T_P2PINNER);
+    irsym_observe(acc.M2L); irsym_observe(acc.P2P); irsym_observe(acc.M2M);
+    // partial runs: a counter moves only when its operator ran (a3 fixed per path; flags forked)
+    {
+        const long which = irsym_choose(3);
+        const int flags = which == 0 ? (TbfAlgorithmUtils::TbfP2M | TbfAlgorithmUtils::TbfM2M | TbfAlgorithmUtils::TbfM2L)
+                        : which == 1 ? (TbfAlgorithmUtils::TbfL2L | TbfAlgorithmUtils::TbfL2P) : TbfAlgorithmUtils::TbfP2P;
+        Tree t2(cfg, gP.pos, a0, a1 != 0); gReg.scan(t2);
+        CAlgo algo2(cfg, upper);
+        algo2.execute(t2, flags);
+        typename CKernel::ReduceType c2;
+        algo2.applyToAllKernels([&](const auto& k){ c2 = CKernel::ReduceType::Reduce(c2, k.getReduceData()); });
+        bool ok = true;
+        ok = ok && c2.P2M == ((flags & TbfAlgorithmUtils::TbfP2M) ? eP2M : 0) && c2.M2M == ((flags & TbfAlgorithmUtils::TbfM2M) ? eM2M : 0);
+        ok = ok && c2.M2L == ((flags & TbfAlgorithmUtils::TbfM2L) ? eM2L : 0) && c2.L2L == ((flags & TbfAlgorithmUtils::TbfL2L) ? eM2M : 0);
+        ok = ok && c2.L2P == ((flags & TbfAlgorithmUtils::TbfL2P) ? eP2M : 0) && c2.P2P == ((flags & TbfAlgorithmUtils::TbfP2P) ? eP2P : 0);
+        ok = ok && c2.P2PInner == ((flags & TbfAlgorithmUtils::TbfP2P) ? eInner : 0);
+        irsym_assert(ok, T_PARTIAL);
+    }
+}
+
+// C18: the documented merge is the field-wise sum, for arbitrary per-worker counter values and any merge order (symbolic counters)
+ENTRY(h_c18_reduce){
+    using C = typename CKernel::ReduceType;
+    const long nw = 2 + irsym_choose(3);            // 2..4 workers
+    C w[4];
+    for(long i = 0; i < nw; ++i){
+        w[i].P2M = (long)irsym_symbolic_u64(); w[i].M2M = (long)irsym_symbolic_u64(); w[i].M2L = (long)irsym_symbolic_u64(); w[i].L2L = (long)irsym_symbolic_u64();
+        w[i].L2P = (long)irsym_symbolic_u64(); w[i].P2P = (long)irsym_symbolic_u64(); w[i].P2PInner = (long)irsym_symbolic_u64();
+    }
+    U e[7] = {0, 0, 0, 0, 0, 0, 0};
+    for(long i = 0; i < nw; ++i){ e[0] += U(w[i].P2M); e[1] += U(w[i].M2M); e[2] += U(w[i].M2L); e[3] += U(w[i].L2L); e[4] += U(w[i].L2P); e[5] += U(w[i].P2P); e[6] += U(w[i].P2PInner); }
+    // documented fold from an empty value, in a forked order (rotation + direction), and a pairwise tree merge
+    const long rot = irsym_choose(nw); const long dir = irsym_choose(2);
+    C acc;
+    for(long i = 0; i < nw; ++i){ const long j = ((dir ? nw - 1 - i : i) + rot) % nw; acc = C::Reduce(acc, w[j]); }
+    bool ok = U(acc.P2M) == e[0] && U(acc.M2M) == e[1] && U(acc.M2L) == e[2] && U(acc.L2L) == e[3] && U(acc.L2P) == e[4] && U(acc.P2P) == e[5] && U(acc.P2PInner) == e[6];
+    irsym_assert(ok, T_REDUCE_FOLD);
+    C t = C::Reduce(w[0], w[1]);
+    if(nw == 3) t = C::Reduce(w[2], t);
+    if(nw == 4) t = C::Reduce(t, C::Reduce(w[3], w[2]));
+    bool ok2 = U(t.P2M) == e[0] && U(t.M2M) == e[1] && U(t.M2L) == e[2] && U(t.L2L) == e[3] && U(t.L2P) == e[4] && U(t.P2P) == e[5] && U(t.P2PInner) == e[6];
+    irsym_assert(ok2, T_REDUCE_TREE);
 }
